@@ -1359,7 +1359,10 @@ func genPrincipal(emit func(string)) {
 				if hi != 1 && bi%5 != 0 && bi < len(all)-16 {
 					continue
 				}
-				for _, d := range depths {
+				for _, d := range append(append([]string{}, depths...), "bad") {
+					if d == "bad" && bi%7 != 0 && bi < len(all)-16 {
+						continue
+					}
 					q := b
 					q.dh = d
 					emit(hx.L("principal", hx.S(p), hs, hx.S(p), reqSx(q)))
